@@ -250,6 +250,75 @@ def e_dedup(k: int) -> bool:
         return ok
 
 
+# --------------------------------------------------------------------------- bulk garbage collection (C08_d): thousands of chunks in one command
+BULK_N = [3900, 4010, 8100, 15000]     # bytes of the big file; with 4..8-byte chunks roughly 975, 1003, 2025, 3750 distinct chunks
+
+
+def gc_bulk_case(encrypted, ni, op, conc):
+    import random
+    U = users(encrypted)
+    with world.scratch('c08b') as d:
+        h = History(d, encrypted=encrypted, concurrent=conc)
+        h.snapshot('A', 0)
+        big = d / 'big'
+        big.mkdir()
+        (big / 'big.bin').write_bytes(random.Random(ni).randbytes(BULK_N[ni]))
+        (big / 'x.bin').write_bytes(FILESETS[0]['b.bin'])          # shares a chunk with the kept snapshot
+        h.snapshot_paths('A', [big])
+        h.snapshot('C', 1)
+        h.be.objs['misc/readme.txt'] = b'not ours'
+        before = dict(h.be.objs)
+        bigsnap, kept, foreign = h.snaps[1], h.snaps[0], h.snaps[2]
+        r = fresh_repo(U, 'A', h.be, concurrent=conc)
+        ndist = len(set(bigsnap['chunks']))
+        try:
+            if op == 0:
+                h.run(r.delete_snapshots([bigsnap['name']], confirm=False))
+                remaining = [kept, foreign]
+            elif op == 1:
+                loc = next(k for k in h.be.objs if k.startswith('snapshots/') and k.endswith('-' + bigsnap['name']))
+                del h.be.objs[loc]                                    # an interrupted delete: thousands of orphans
+                h.run(r.clean())
+                remaining = [kept, foreign]
+            else:
+                h.run(r.delete_snapshots([kept['name'], bigsnap['name']], confirm=False))
+                remaining = [foreign]
+        except Exception as e:
+            return False, f'command raised {e!r}', ndist
+        want = set()
+        for s_ in remaining:
+            want |= {h.repos[s_['owner']]._chunk_digest_to_location(dg) for dg in s_['chunks']}
+        have = {k for k in h.be.objs if k.startswith('data/')}
+        if have != want:
+            return False, (f"{['delete of a snapshot', 'clean after an interrupted delete', 'delete of two snapshots'][op]} with {ndist} distinct chunks to remove: "
+                           f'{len(have - want)} unreferenced chunk object(s) left, {len(want - have)} referenced one(s) removed'), ndist
+        for k, v in before.items():
+            if not k.startswith('data/') and k in h.be.objs and h.be.objs[k] != v:
+                return False, f'{k} overwritten', ndist
+        if 'misc/readme.txt' not in h.be.objs or 'config' not in h.be.objs:
+            return False, 'object outside the chunk and snapshot areas removed', ndist
+        snaps_left = {k for k in h.be.objs if k.startswith('snapshots/')}
+        if len(snaps_left) != len(remaining):
+            return False, f'{len(snaps_left)} snapshot objects left, expected {len(remaining)}', ndist
+        if h.be.max_inflight > conc:
+            return False, f'{h.be.max_inflight} calls in flight with concurrency {conc}', ndist
+        return True, '', ndist
+
+
+def g_bulk(k: int) -> bool:
+    """
+    pre: shard(2 * 4 * 3 * 2)[0] <= k < shard(2 * 4 * 3 * 2)[1]
+    post: _
+    """
+    enc, ni, op, ci = digits(k, [2, 4, 3, 2])
+    with NoTracing():
+        ok, msg, nd = gc_bulk_case(bool(enc), ni, op, [2, 7][ci])
+        tick('g_bulk', [enc, BULK_N[ni], op, ci, nd])
+        if not ok:
+            _say(msg)
+        return ok
+
+
 # --------------------------------------------------------------------------- destructive commands under listing faults (C02_d)
 LIST_EXCS = [lambda p: OSError(5, 'injected I/O error', str(p)), lambda p: PermissionError(13, 'injected EACCES', str(p))]
 
